@@ -196,7 +196,7 @@ def run(ctx, model):
                         if op == "-" and l_ is mb and ctx.tier == "quick":
                             continue
                         jobs.append((wide, False, "".join(sorted(l_)), lt, "".join(sorted(r_)), rt, op, order))
-    jobs += digit_chain_jobs(W)
+    jobs += digit_chain_jobs(W) + sub_chain_jobs(W)
     results = _parallel(ctx, model, sorted(W), jobs)
     report_non_confluence(ctx, model, "R-SETALG", jobs, results)
 
@@ -442,6 +442,26 @@ def digit_chain_jobs(W):
     return jobs
 
 
+def sub_chain_jobs(W):
+    """Subtractions in which the minuend lists SEVERAL single characters that fall inside one range of the subtrahend
+    (and some that do not), under eight iteration orders: a worklist that removes elements from the list it is
+    iterating over skips whichever character the set order put next to a removed one."""
+    jobs = []
+    alpha = "abcdefghij"
+    singles = ["aceg", "bdfh", "acj", "behj", "abij", "cfi"]
+    rngs = [[(0, 7)], [(1, 6)], [(0, 3), (5, 8)], [(2, 9)]]
+    for ms in singles:
+        for parts in rngs:
+            ma = frozenset(ms)
+            mb = frozenset(alpha[i] for a, b in parts for i in range(a, b + 1))
+            if not (ma - mb):
+                continue
+            ta, tb = canonical_verbose(ma, False, W, True), canonical_verbose(mb, False, W, True)
+            for order in (0, 1, 2, 3, 10, 11, 12, 13):
+                jobs.append((alpha, False, "".join(sorted(ma)), ta, "".join(sorted(mb)), tb, "-", order))
+    return jobs
+
+
 def pattern_structure(pattern):
     """(negated, maximal intervals, shorthand categories) of a class pattern - equal structures are equivalent over all
     of Unicode; a shorthand versus explicit ranges is a different structure."""
@@ -501,9 +521,9 @@ def report_non_confluence(ctx, model, rule, jobs, results):
 def confluence_rule(ctx, model, rule):
     """Stand-alone form (used by C20): the digit-chain unions under eight iteration orders."""
     W = tables(model)[0]
-    jobs = digit_chain_jobs(W)
+    jobs = digit_chain_jobs(W) + sub_chain_jobs(W)
     results = _parallel(ctx, model, sorted(W), jobs)
     for job, (kind, payload) in zip(jobs, results):
-        ctx.instance(rule, key=("confluence", job[3], job[5], job[7]),
-                     sample=f"{job[3]} | {job[5]} [set order {job[7]}] -> {payload[2] if kind == 'ok' else payload!r}" if job[7] == 0 else None)
+        ctx.instance(rule, key=("confluence", job[3], job[5], job[6], job[7]),
+                     sample=f"{job[3]} {job[6]} {job[5]} [set order {job[7]}] -> {payload[2] if kind == 'ok' else payload!r}" if job[7] == 0 else None)
     return report_non_confluence(ctx, model, rule, jobs, results)
